@@ -1,6 +1,7 @@
 import HL.Driver.Util
 import HL.Model.Text
 import HL.Spec.RefBuffer
+import HL.Model.Derived
 open Lean HL.Text
 
 namespace HL.Driver.C01
@@ -78,9 +79,38 @@ def apply (j : Json) : Json :=
     ("spec_ok", !ok || HL.Ref.enc16 implT == ref), ("why", "ApplyChange differs from the client buffer"),
     ("nontrivial", ok)]
 
+/-- op c01.fresh: change / save / close / inline-completion events; texts are version numbers.
+    model = for every inline request the version the served templates were computed from
+    (HL.Derived.served with `templates := id`; -1 when the document is closed);
+    spec_ok = the implementation's answer corresponds to the document's CURRENT version. -/
+def fresh (j : Json) : Json := Id.run do
+  let evs := (jarr j "events").toList
+  let impl := (jarr j "impl").toList.map fun x => (fromJson? (α := Int) x).toOption.getD (-2)
+  let mut σ : HL.Derived.St Nat Nat := HL.Derived.St.init
+  let mut model : Array Json := #[]
+  let mut want : List Int := []
+  for e in evs do
+    let u := jnat e "u"
+    match jstr e "k" with
+    | "change" => σ := HL.Derived.step id true σ (.change u (jnat e "v"))
+    | "save" => σ := HL.Derived.step id true σ (.save u)
+    | "close" => σ := HL.Derived.step id true σ (.close u)
+    | _ =>
+      let s := HL.Derived.served id σ u
+      let cur : Int := match σ.docs u with | some t => t | none => -1
+      let sv : Int := match s with | some t => t | none => -1
+      model := model.push (toJson sv)
+      want := want ++ [cur]
+      σ := HL.Derived.step id true σ (.inline u)
+  let ok := impl == want
+  return Json.mkObj [("model", Json.arr model), ("spec_ok", ok), ("in_domain", true),
+    ("known", Json.arr #[]), ("why", "an inline completion answer was not computed from the document's current text"),
+    ("nontrivial", decide (want.length ≥ 2))]
+
 def handle (op : String) (j : Json) : Option Json :=
   match op with
   | "c01.hist" => some (hist j)
+  | "c01.fresh" => some (fresh j)
   | "c01.u16" => some (u16 j)
   | "c01.apply" => some (apply j)
   | _ => none
